@@ -17,6 +17,9 @@ Fixpoint list_eqb {A B} (eqb : A -> B -> bool) (a : list A) (b : list B) : bool 
   match a, b with [], [] => true | x :: r, y :: s => eqb x y && list_eqb eqb r s | _, _ => false end.
 Definition sz_eqb (a b : string * Z) : bool := String.eqb (fst a) (fst b) && (snd a =? snd b).
 Definition ss_eqb (a b : string * string) : bool := String.eqb (fst a) (fst b) && String.eqb (snd a) (snd b).
+(* a constant of the shipped module is an int: the parsed constant must be that int (not a float of the same value) *)
+Definition cz_eqb (a : string * cval) (b : string * Z) : bool :=
+  String.eqb (fst a) (fst b) && match snd a with VInt n => n =? snd b | VFlt _ => false end.
 
 (* one field as the Python back end prints it: descriptor class through python.py's desctype_map *)
 Definition py_field (p : pfield) : F5 :=
@@ -42,7 +45,7 @@ Definition alias_eqb (a b : string * (Z * Z)) : bool :=
 Definition core_diff : Z :=
   match parse_closure true core_closure with
   | POk st =>
-    if negb (list_eqb sz_eqb (ps_consts st) core_py_constants) then 1
+    if negb (list_eqb cz_eqb (ps_consts st) core_py_constants) then 1
     else if negb (list_eqb ss_eqb (ps_strs st) core_py_strings) then 2
     else if negb (list_eqb alias_eqb (map py_alias (ps_aliases st)) core_py_aliases) then 3
     else if negb (list_eqb sz_eqb (ps_hids st) core_py_hids) then 4
